@@ -596,6 +596,12 @@ func runEngine(t *testing.T, eng *engine) {
 		}
 		sort.Strings(hs)
 		_ = os.WriteFile(*fOut+".hashes", []byte(strings.Join(hs, "\n")), 0o644)
+		ss := make([]string, 0, len(states))
+		for h := range states {
+			ss = append(ss, h)
+		}
+		sort.Strings(ss)
+		_ = os.WriteFile(*fOut+".states", []byte(strings.Join(ss, "\n")), 0o644)
 	}
 	if fail.in != nil {
 		fmt.Printf("FOUND property=%s class=%s replay=%s\n", fail.v.Prop, fail.v.Class, out.Replay)
